@@ -107,6 +107,14 @@ pub async fn run_case(addr: SocketAddr, certs: &Certs, seed: u64, i: u64, kind: 
                         return Err(sent);
                     }
                     if j < outages {
+                        // every second case: a backlog of unflushed frames (two 9 KiB messages fed, not
+                        // flushed) sits in the write buffer when the connection is cut, so that the outage
+                        // is first noticed by poll_ready of the next send, not by a flush
+                        if (seed + i) % 2 == 0 {
+                            for _ in 0..2 {
+                                let _ = with_deadline(budget, publ.feed("b".repeat(9 * 1024))).await;
+                            }
+                        }
                         a.__verif_close_connection().await;
                         tokio::time::sleep(Duration::from_millis(30)).await;
                     }
